@@ -33,6 +33,17 @@ def oracle(ctx, budget=1, replay=None, hints=None):
     r = FL.oracle(ctx, PID, [O.check_C14], kw, 150 * budget, accept=acc, replay=replay)
     # a disable command that closes an episode leaves the same obligations as a move out of the region, including an owed recovery:
     # designed programs where the command arrives while the recovery is owed, judged by the E / retraction oracles as well
+    # the plugin layer: which actions apply is decided by the table in the settings in force (several entries per command, patterns, edits
+    # at run time); the real plugin against a reference reading of that table
+    import pluginoracles as PO
+    nh = 40 * budget
+    for _ in range(nh):
+        h = PS.atc_history(ctx.rng) if ctx.rng.random() < 0.7 else PS.gen_history(ctx.rng)
+        f = PO.run_history(h, ('C14',))
+        if f and len(r['failures']) < 10:
+            r['failures'].append(f[0])
+    r['evaluations'] += nh
+    r['distribution']['plugin_histories'] = nh
     for p in designed(ctx.rng, 12 * budget):
         steps, exc = O.simulate(p)
         O.episodes(steps)
